@@ -13,7 +13,7 @@ ANCHOR_PREFIXES = ["element::SvgElement::eval_rel", "element::SvgElement::place_
 BOUNDS = ("reference element in {rect, circle, ellipse, line, box, point, g with one child}, referenced as #id or ^; positioned element in {rect, circle, ellipse, rect with dw/dh/dwh}; elements positioned on one axis only; "
           "forms: |h |H |v |V with gap absent/symbolic (either sign); @loc for 9 locations and 4 edges (offset symbolic either sign, or 0/25/50/100/150 %) with xy, xy+xy-loc (8), cxy, "
           "delta absent/one/two symbolic values; 11 scalar kinds on x y cx cy x2 y2 with delta absent/abs/percent, bare per-axis reference, per-axis @loc; relative sizes wh=#r, #r p%, #r a b, "
-          "width=#r~h p%, dw dh dwh abs/percent; chains of length 3; positions k/2 in [-512,512], sizes k/2 in [0,256] (integers where a percentage or a further halving is applied), gaps/deltas k/2 in [-64,64]")
+          "width=#r~h p%, dw dh dwh abs/percent; chains of length 3; positions k/2 in [-512,512], sizes k/2 in [0,256] (integers where a percentage or a further halving is applied), gaps/deltas k/2 in [-64,64]; chains in every document order, middle element by cxy + r or with dw / dh, last element sized from the middle one; element ids with non-ASCII letters, digits, _ and -")
 ASSUMPTIONS = ["a single delta value after @loc applies to both axes (docs: expression pair)", "radius scalar ~r = max(w,h)/2 (code doc comment 'by convention')",
                "the referenced box of visible elements is recomputed from the referenced element's own output geometry; for invisible box/point it is taken from the input values"]
 
